@@ -1,3 +1,4 @@
+import TinysetModel.Proofs.Loops
 import TinysetModel.Proofs.ProgramTotal
 import TinysetModel.Proofs.ProgramRefine
 import TinysetModel.Proofs.Fns
@@ -248,6 +249,18 @@ theorem every_program_returns_u32 {D : Type} (g : Rng D) (fuel n : Nat) (ops : L
       (∀ i, i < n → WF cfg32 (s'.get i) ∧ ∀ x, x ∈ elems cfg32 (s'.get i) ↔ specRunP n (fun _ => none') ops i x) ∧
       runEv [] (evs ++ dropAll cfg32 s') = some [] :=
   program_total_correct (histTotal_u32 g fuel) false n ops hops hN d
+
+/-! ### the Robin-Hood primitives of the model are the ones in the current source
+(`Generated/Loops.lean`: `p_lookfor`, `p_insert`, `p_remove` of `src/setu32.rs` translated statement by statement on
+every run by `tools/gen_loops.py`) -/
+
+/-- as for SetU64; `setu32.rs` computes the probe index in `u64` but narrows the table length to `u32` in `p_poverty`
+and computes `(ii + n) as u32` in `p_remove`: equal to the model on tables below 2^32 / of at most 2^31 buckets -/
+theorem primitives_are_the_source_u32 (k : Nat) (a : Tbl) (off : Nat) (hn : a.size ≤ 2 ^ 31) :
+    Gen.p_lookfor_32 k a off = .ok (convLooked (lookfor k a off), a) ∧
+    Gen.p_insert_32 k a off = convErr (pinsert k a off) ∧
+    Gen.p_remove_32 k a off = .ok (premove k a off) :=
+  ⟨p_lookfor_32_eq k a off (by omega), p_insert_32_eq k a off (by omega), p_remove_32_eq k a off hn⟩
 
 end C02
 
